@@ -53,9 +53,10 @@ CLAIMS = {
  "C07": ("TLC model checking of FeeUpper/FeeLower (ghost exact-share ledgers, accumulators started just below wrap-around) on the toy instance + trace validation: "
          "the spec accumulates per recorded swap step the exact pro-rata share of every position whose range contains the segment tick (2^128-scaled interval) and checks "
          "credited fees <= share and >= share - bounded rounding after every instruction", "the lower bound is 'bounded rounding' (one unit per in-range step / credit): a change that loses less is not reported", "4 C07"),
- "C11": ("trace validation: AccrueRewards (floor(dt*emissions/liquidity); nothing at zero liquidity / uninitialized / 128-bit overflow; monotone timestamps) on every recorded "
+ "C11": ("TLC model checking of Rewards.tla at toy scale (RewardUpper / RewardLower ghost share ledgers, NoInflation, zero-liquidity and stamp-monotonicity action properties, accumulator started below wrap-around) + "
+         "trace validation: AccrueRewards (floor(dt*emissions/liquidity); nothing at zero liquidity / uninitialized / 128-bit overflow; monotone timestamps) on every recorded "
          "instruction; reward share ledgers (upper bound + bounded-rounding lower bound); collect = min(owed, vault); set-emissions settles first and needs a day of funding",
-         "no toy-scale model of rewards yet (the reward rules are evaluated on recorded executions only)", "4 C11"),
+         "the toy model (Rewards.tla) abstracts a swap to single tick crossings and has one reward; the full rules (three rewards, real swaps) are evaluated on recorded executions", "4 C11"),
  "C12": ("trace validation: every Pinocchio-served increase/decrease (v1, v2) in recorded histories is re-executed on a copy of the bank by the Anchor handler; TLC checks equal "
          "return code, byte-identical accounts and equal events (predicate DualOK), entrypoint routing against the real extern-C symbol, memory-mapped getters/setters vs Anchor "
          "serializers and the usable-tick lookup vs the spec formula",
